@@ -110,7 +110,8 @@ class Mon(LifeCounting):
             if resend and tgt in self.reopened:
                 pass       # close after a re-open: tolerated zone
             elif resend:
-                if not rows_equal(r.before, r.after, ignore={("mailbox_sides", "mood")}):
+                # the re-sent close goes through open-then-close: it may refresh the activity stamp, nothing else
+                if not rows_equal(r.before, r.after, ignore={("mailbox_sides", "mood"), ("mailboxes", "updated")}):
                     out.append(self.V("resent-close-changed-state",
                                       {"diff": rows_diff(r.before, r.after), "step": r.brief()},
                                       {"existed": existed}))
